@@ -126,7 +126,7 @@ theorem pair_result_is_one_proposal (cfg : Cfg) (hf : cfg.fixed = true) (A B : T
 builds its own pair and publishes it with `StoreOrLoadPair[7,8]` (types 7, 8 are used by nothing
 else; the decodes themselves run under types 0 and 1); the loser adopts the winner's pair. -/
 example :
-    let cfg : Cfg := ⟨fun _ => .direct, fun _ => false, true⟩
+    let cfg : Cfg := ⟨fun _ => .direct, true⟩
     let ls : List Label :=
       [(0, .callDecode (.ref 1) 0 []), (1, .callDecode (.ref 1) 1 []), (0, .go), (1, .go),
        (0, .callPair 1 7 8 10 11), (1, .callPair 1 7 8 20 21)]
